@@ -237,7 +237,15 @@ def trace_oracles(E, it):
             bad.append(("photon:task-slot-reused", "iteration %d: task slot %d reused before the previous task in it was executed" % (iloop, t)))
         created[t] = created.get(t, 0) + 1
 
+    after_pz = set()
+    THREAD_FIRST = ("PA", "PB", "PN", "PD", "PK", "PX", "PR", "PO", "PC", "PL", "PH", "PQ", "PZ", "QS", "QI", "QF", "QD", "QO", "QK")
     for (k, v) in it["events"]:
+        # worker loop: a thread that cleared the run flag holds no task and leaves at the next loop test
+        if k in THREAD_FIRST and v and v[0] in after_pz:
+            bad.append(("photon:thread-continues-after-termination", "iteration %d: thread %d cleared the run flag and then still logged %s" % (iloop, v[0], k)))
+            after_pz.discard(v[0])
+        if k == "PZ":
+            after_pz.add(v[0])
         if k == "PT":
             create(v[0])
         elif k == "PA":
@@ -476,6 +484,7 @@ def iteration_ops(E, it, noserial=False):
             maxb, maxt = max(maxb, v[4]), max(maxt, v[5])
         elif k == "PP":
             maxt = max(maxt, v[4])
+    it["max_ids"] = (maxb, maxt, nblocks)
     op("cfg %d %d %d %d %d %d %d %d" % (N, len(srcs), norig, nblocks, reem, maxb + 3, maxt + 1, nsub), "cfg ok")
     for (k, v) in ev:
         if k == "PG":
@@ -852,6 +861,13 @@ def run_and_check(ctx, E, binary, job, drv_jobs):
             st["oracle_failures"] += 1
             ctx.violation(key, "%s (%s)" % (text, what), dict(rep, trace=[" ".join([k] + [str(x) for x in v]) for (k, v) in it["events"] if k != "PG"][:3000]))
         ops, exp = iteration_ops(E, it, noserial)
+        # the capacity premise of no_stuck (two free buffers, nblocks + 1 free task slots) evaluated on this run
+        mb, mt, nb_ = it["max_ids"]
+        cp = ctx.cov.setdefault("capacity_premise", {"iterations": 0, "premise_held": 0, "max_buffer_id": 0, "max_task_id": 0})
+        cp["iterations"] += 1
+        cp["max_buffer_id"], cp["max_task_id"] = max(cp["max_buffer_id"], mb), max(cp["max_task_id"], mt)
+        if mb + 3 <= 4000 and (c.get("rhd") or mt + nb_ + 2 <= c.get("ntasks", 40000)):
+            cp["premise_held"] += 1
         only_leak = bool(bad) and all(k == "photon:rhd-task-slots-left-behind" for (k, _) in bad)
         if only_leak:
             # the leaked slots do not disturb the protocol: replay everything, compare the end record without its task count
@@ -1006,7 +1022,8 @@ def run(ctx):
         "sequentially consistent atomics; the non-atomic read pair (is_empty, num_photon_done) of the termination test is modelled as one read (the hook order makes every logged PZ consistent, replay checks it)",
         "packet identities are logged (CMAC_VERIF_PACKET_IDS=1) for traced runs with at most 3000 packets; the id member of PhotonPacket exists only under the guard CMACIONIZE_VERIF",
         "--task-plot (tasks are deliberately kept in the task space until the reset at the end of the iteration) is part of the run matrix: there the number of tasks in use is checked after the reset (record PW) instead of at the end of the photon loop; trackers (`enable trackers`) and --task-plot-rhd are not in the matrix",
-        "the photon loop of TaskBasedRadiationHydrodynamicsSimulation.cpp is covered at the protocol level (no continuous source => no task can be obtained after the flag was cleared, theorem after_termination_only_packet_free_tasks); its traces are not replayed in the quick tier",
+        "the photon loop of TaskBasedRadiationHydrodynamicsSimulation.cpp (old loop condition, discrete source only) is the `loopFixed = false` variant of the loop model (theorems no_exit_with_task, nothing_left_behind under contIds = []); its traces are replayed at the protocol level like those of the ionization loop",
+        "the silent steps of the loop model (polls that return NO_TASK, loop tests) leave no trace record, so the loop model is tied to the code only through its visible steps: PA/commit records (protocol replay), PY (no thread leaves with a task) and PZ (a thread that cleared the flag logs nothing but its exit)",
     ]
     import time
     t0 = time.time()
@@ -1111,6 +1128,6 @@ def replay(ctx, path):
 
 MANIFEST = dict(
     category="proof",
-    text="Lean theorems over EVERY execution of the photon-packet protocol of a task-based photoionization iteration (arbitrary interleaving of the committed task actions, any number of threads, any subgrid layout / periodicity / copy wiring, discrete and continuous sources, re-emission on or off, any packet number, physics outcome of every task universally quantified): exact split of the requested number over sources and subgrid copies (split_total, batches_total); conservation N = done + sources + source tasks + buffers in use + continuous buffers (conservation); every buffer in use has exactly one owner, a task or one active-buffer entry, with 1..200 resp. 1..199 packets (ownership); no packet terminated twice, each exactly once when done = N (exactly_once, ghost packet identifiers); run flag cleared => done = N and no buffer, active buffer, source or continuous-buffer content left (termination_sound); the cached largest active buffer of a subgrid is always a real, largest one (premature_safe); the continuous-source counter is exact and buffers are flushed exactly when it is zero (continuous_bookkeeping); done < N => some label is enabled while capacities are not exhausted (no_stuck); on top, the worker loop of the threads (lstep, loop condition after fix f78e960): a dequeued task always has a live holder and when all threads have left the loop NO task, queue entry, lock or buffer is left (nothing_left_behind); task space after the reset is empty in both life-cycle modes, tasks released when executed / --task-plot (next_iteration_starts_clean, clear_fast_leaks_with_plot). Tied to the code by replaying every record of the hook-H2 trace of real multi-thread CMacIonize --task-based runs (also under seeded scheduling jitter) through the same Lean step function, by the same statements evaluated directly on the trace, by PACKET IDENTITIES (hook build: every launched packet carries a unique id that is copied with the packet and kept by a re-emission; for runs with <= 3000 packets the ids entering / leaving every traversal and re-emission task are logged, fed through the model's ghost ids and checked directly: launched once, terminated exactly once, never in two buffers, every buffer delivers what was put into it, in order), and by a differential test of DistributedPhotonSource.",
+    text="Lean theorems over EVERY execution of the photon-packet protocol of a task-based photoionization iteration (arbitrary interleaving of the committed task actions, any number of threads, any subgrid layout / periodicity / copy wiring, discrete and continuous sources, re-emission on or off, any packet number, physics outcome of every task universally quantified): exact split of the requested number over sources and subgrid copies (split_total, batches_total); conservation N = done + sources + source tasks + buffers in use + continuous buffers (conservation); every buffer in use has exactly one owner, a task or one active-buffer entry, with 1..200 resp. 1..199 packets (ownership); no packet terminated twice, each exactly once when done = N (exactly_once, ghost packet identifiers); run flag cleared => done = N and no buffer, active buffer, source or continuous-buffer content left (termination_sound); the cached largest active buffer of a subgrid is always a real, largest one (premature_safe); the worker loop is modelled with the termination test as two separate reads (termination_two_reads_sound) and in both variants of the loop condition: fixed loop with any sources, old loop `while (global_run_flag)` (radiation-hydrodynamics photon loop) without a continuous source (no_exit_with_task, running_task_has_live_holder: exactly one holder per running task), and the old loop WITH a continuous source provably loses a flush task (old_loop_loses_flush_task, the defect fixed by f78e960); the continuous-source counter is exact and buffers are flushed exactly when it is zero (continuous_bookkeeping); done < N => some label is enabled while capacities are not exhausted (no_stuck); on top, the worker loop of the threads (lstep, loop condition after fix f78e960): a dequeued task always has a live holder and when all threads have left the loop NO task, queue entry, lock or buffer is left (nothing_left_behind); task space after the reset is empty in both life-cycle modes, tasks released when executed / --task-plot (next_iteration_starts_clean, clear_fast_leaks_with_plot). Tied to the code by replaying every record of the hook-H2 trace of real multi-thread CMacIonize --task-based runs (also under seeded scheduling jitter) through the same Lean step function, by the same statements evaluated directly on the trace, by PACKET IDENTITIES (hook build: every launched packet carries a unique id that is copied with the packet and kept by a re-emission; for runs with <= 3000 packets the ids entering / leaving every traversal and re-emission task are logged, fed through the model's ghost ids and checked directly: launched once, terminated exactly once, never in two buffers, every buffer delivers what was put into it, in order), and by a differential test of DistributedPhotonSource.",
     note="Trusted: Lean kernel + 3 axioms; hand model of the seven task contexts, MemorySpace::add_photons, the photon loop and DistributedPhotonSource; task-level atomicity of commits (lock discipline is C08) and sequentially consistent atomics; the trace hook serialises commit bookkeeping (not the physics) through one mutex. NOT proved: termination (with re-emission it only holds with probability 1; no_stuck is the provable part); capacities of buffer pool / task table / queues are assumed sufficient. A run that does not finish within 60-90 s or dies is reported as a violation. The RHD photon loop is covered by the protocol theorems only (discrete sources: no task exists after termination).",
     technique="Lean 4 proof (inductive invariant + weight function generic in a packet weight: length gives conservation, indicator gives exactly-once; thread-loop invariant on top) + trace refinement check against the real hooked binary under scheduling jitter + differential harness")
